@@ -634,6 +634,45 @@ fn check_batch(b: &Batch) -> Outcome {
             }
         }
     }
+    // (g) the verdict does not depend on earlier arguments: the node stays connected as `t_i` while it is offered
+    //     for every other argument
+    {
+        let mut g = CompositionGraph::new();
+        if let Ok(pkg) = Package::from_bytes("test:batch", None, bytes.clone(), g.types_mut()) {
+            let ty = pkg.ty();
+            let id = g.register_package(pkg).unwrap();
+            let kinds: Vec<ItemKind> = (0..n).map(|i| g.types()[ty].imports[&format!("t{i}")]).collect();
+            let nodes: Vec<_> = (0..n).map(|i| g.import(format!("x{i}"), kinds[i]).unwrap()).collect();
+            let inst = g.instantiate(id);
+            for i in 0..n {
+                if !reference.reference[i][i] || !matches!(guarded(|| g.set_instantiation_argument(inst, &format!("t{i}"), nodes[i])), Ok(Ok(()))) {
+                    continue;
+                }
+                for j in 0..n {
+                    if j == i {
+                        continue;
+                    }
+                    let got = match guarded(|| g.set_instantiation_argument(inst, &format!("t{j}"), nodes[i])) {
+                        Ok(Ok(())) => {
+                            let listed = g.get_instantiation_arguments(inst).any(|(a, s)| a == format!("t{j}") && s == nodes[i]);
+                            if !listed {
+                                return o.with_verdict(Verdict::Fail { sig: "C07/accepted-argument-not-set".into(), msg: format!("set_instantiation_argument(t{j} := x{i}) returned Ok while x{i} was already passed as t{i}, but t{j} is not among the arguments\n{wat_text}") });
+                            }
+                            let _ = g.unset_instantiation_argument(inst, &format!("t{j}"), nodes[i]);
+                            true
+                        }
+                        Ok(Err(InstantiationArgumentError::ArgumentTypeMismatch { .. })) => false,
+                        Ok(Err(_)) | Err(_) => continue,
+                    };
+                    comparisons += 1;
+                    if got != reference.reference[i][j] {
+                        return o.with_verdict(Verdict::Fail { sig: format!("C07/verdict-depends-on-earlier-arguments:{}", if got { "accepted" } else { "rejected" }), msg: format!("with x{i} already passed as t{i}, set_instantiation_argument(t{j} := x{i}) {}; the reference validator says t{i} <: t{j} is {}\n{wat_text}", if got { "was accepted" } else { "was rejected" }, reference.reference[i][j]) });
+                    }
+                }
+                let _ = g.unset_instantiation_argument(inst, &format!("t{i}"), nodes[i]);
+            }
+        }
+    }
     let subs = reference.reference.iter().enumerate().map(|(i, r)| r.iter().enumerate().filter(|(j, v)| **v && *j != i).count()).sum::<usize>();
     o = o.label(format!("batch-of-{}", b.kinds[0].class()));
     if subs > 0 {
